@@ -1,4 +1,5 @@
 import Ldlm.Proofs.CoreMain
+import Ldlm.Proofs.CoreRepr
 import Ldlm.Proofs.MapOps
 import Ldlm.Generated.Facts
 /-!
@@ -9,6 +10,12 @@ lock-table representation (flat, or sharded with any hash function and shard cou
 holds identically for every number of shards), plus the regenerated source facts that pin the
 comparisons, their constants and their order (`guards_pinned`, `default_size_pinned`,
 `lease_units_pinned`, `arm_guards_pinned`).
+
+`shard_count_invisible` — **for every history** (all operations of M2: requests, time, GC, restarts,
+admin unlock, cancellation) the answers, events and tie flags are identical, and the final states
+are equal up to the representation, for ANY two shard counts and hash functions, and for the flat
+table (`Proofs/CoreRepr.repr_independent`: every lawful representation simulates the functional
+table `name → record` step by step).
 -/
 namespace Ldlm.Props.C12
 open Ldlm.Core
@@ -137,5 +144,22 @@ def cfg0 : Cfg := { gcInterval := 0, gcMinIdle := 0, dlt := 600 * sec, noClear :
                     genKey := fun n => 75 :: natDigits n }
 example : (step flatOps cfg0 (run flatOps cfg0 [.connect [115], .tryLock (some [115]) [97] (some 2) none])
     (.tryLock (some [115]) [97] (some 3) none)).2.err = some .sizeMismatch := by decide
+
+/-! ### shard independence of whole histories -/
+
+/-- the number of shards and the hash function are invisible: same answers to every history, same
+final state up to the representation -/
+theorem shard_count_invisible (hash hash' : Str → Nat) (shards shards' : Nat) (ops : List Op) :
+    resps (shardedOps hash shards) c (init (shardedOps hash shards) c) ops
+      = resps (shardedOps hash' shards') c (init (shardedOps hash' shards') c) ops ∧
+    norm (shardedOps hash shards) (run (shardedOps hash shards) c ops)
+      = norm (shardedOps hash' shards') (run (shardedOps hash' shards') c ops) :=
+  repr_independent (shardedOps_lawful hash shards) (shardedOps_lawful hash' shards') ops
+
+/-- … and a sharded table is indistinguishable from one flat map -/
+theorem sharded_equals_flat (hash : Str → Nat) (shards : Nat) (ops : List Op) :
+    resps (shardedOps hash shards) c (init (shardedOps hash shards) c) ops = resps flatOps c (init flatOps c) ops ∧
+    norm (shardedOps hash shards) (run (shardedOps hash shards) c ops) = norm flatOps (run flatOps c ops) :=
+  repr_independent (shardedOps_lawful hash shards) flatOps_lawful ops
 
 end Ldlm.Props.C12
